@@ -122,6 +122,15 @@ func c01Run(c *Ctx) {
 		}
 		shape = fmt.Sprintf("%s depth=%d opts=%s", sp, focus.Cmd.Depth, optionsString(d.Options))
 	}
+	if c.K%5 == 2 {
+		// the same declaration on a parser that is used twice with a change of the public model in between
+		if hl := histParseStage(c, d, []string{"late-group-on-command", "late-group-on-ancestor", "late-group-in-group", "rename-namespace", "rename-option", "delimiter", "none"}, "parse"); hl != "" {
+			shape += " history=" + hl
+		}
+		if c.Violated() {
+			return
+		}
+	}
 	c.Held(cell, shape)
 }
 
